@@ -3,7 +3,8 @@
    State layout x = (p[0:3], v_body[3:6], q[6:10], w[10:13], rotor speeds[13:17]); u = rotor commands;
    the parameter vector is fully symbolic, so every statement holds for all parameter sets. *)
 From Coq Require Import Reals List Lra.
-From Cyecca Require Import Base.Ops Gen.Quadrotor Proofs.C16 Proofs.C16_equiv.
+From Coquelicot Require Import Coquelicot.
+From Cyecca Require Import Base.Ops Gen.Quadrotor Proofs.C16 Proofs.C16_equiv Proofs.C16_motor.
 Import ListNotations.
 Local Open Scope R_scope.
 
@@ -119,6 +120,27 @@ Theorem C16_motor0_independent : forall px py pz vx vy vz q0 q1 q2 q3 wx wy wz m
   nth 13 r 0 = if Rlt_dec m0 u0 then (u0 - m0) / tau_up else (u0 - m0) / tau_down.
 Proof. exact (motor0_independent tau_up tau_down d0 d1 d2 d3 l0 l1 l2 l3 th0 th1 th2 th3 CT CM Cl_p Cm_q Cn_r CD0 S rho g m Jx Jy Jz n0 n1 n2 n3 n4 n5 n6 n7 n8 n9 n10 n11). Qed.
 
+(* Last clause of the property: for a constant command u0 the closed form
+     motor_sol m0 u0 t = u0 + (m0 - u0) exp (- t / tau),   tau = tau_up if m0 < u0 else tau_down
+   (the code's own comparison, taken once at t = 0) solves the generated motor equation for every t and every value
+   of the rest of the state, starts at m0, never crosses the command (so the time constant never switches along
+   the solution) and its distance to the command is non-increasing. *)
+Theorem C16_motor_closed_form_solves : 0 < tau_up -> 0 < tau_down ->
+  forall px py pz vx vy vz q0 q1 q2 q3 wx wy wz m0 m1 m2 m3 u0 u1 u2 u3 t,
+  is_derive (motor_sol tau_up tau_down m0 u0) t
+    (nth 13 (f px py pz vx vy vz q0 q1 q2 q3 wx wy wz (motor_sol tau_up tau_down m0 u0 t) m1 m2 m3 u0 u1 u2 u3) 0).
+Proof. exact (motor_sol_solves tau_up tau_down d0 d1 d2 d3 l0 l1 l2 l3 th0 th1 th2 th3 CT CM Cl_p Cm_q Cn_r CD0 S rho g m Jx Jy Jz n0 n1 n2 n3 n4 n5 n6 n7 n8 n9 n10 n11). Qed.
+
+Theorem C16_motor_closed_form_start : forall m0 u0, motor_sol tau_up tau_down m0 u0 0 = m0.
+Proof. exact (motor_sol_0 tau_up tau_down). Qed.
+
+Theorem C16_motor_never_crosses_command : forall m0 u0 t, motor_sol tau_up tau_down m0 u0 t < u0 <-> m0 < u0.
+Proof. exact (motor_sol_side tau_up tau_down). Qed.
+
+Theorem C16_motor_relaxes_monotonically : 0 < tau_up -> 0 < tau_down -> forall m0 u0 s t, s <= t ->
+  Rabs (motor_sol tau_up tau_down m0 u0 t - u0) <= Rabs (motor_sol tau_up tau_down m0 u0 s - u0).
+Proof. exact (motor_sol_monotone tau_up tau_down). Qed.
+
 Theorem C16_translation_invariant : forall a b px py pz vx vy vz q0 q1 q2 q3 wx wy wz m0 m1 m2 m3 u0 u1 u2 u3,
   f (px + a) (py + b) pz vx vy vz q0 q1 q2 q3 wx wy wz m0 m1 m2 m3 u0 u1 u2 u3 =
   f px py pz vx vy vz q0 q1 q2 q3 wx wy wz m0 m1 m2 m3 u0 u1 u2 u3.
@@ -162,5 +184,9 @@ Print Assumptions C16_force_is_sum_over_rotors.
 Print Assumptions C16_motor_spin_up.
 Print Assumptions C16_motor_spin_down.
 Print Assumptions C16_motor0_independent.
+Print Assumptions C16_motor_closed_form_solves.
+Print Assumptions C16_motor_closed_form_start.
+Print Assumptions C16_motor_never_crosses_command.
+Print Assumptions C16_motor_relaxes_monotonically.
 Print Assumptions C16_translation_invariant.
 Print Assumptions C16_yaw_equivariant.
